@@ -1,4 +1,236 @@
-import Cutplace.Model.Checks
+import Cutplace.Proofs.EngineLemmas
+/-
+C06  Error-handling modes agree with each other and account for every row.
+All theorems hold for every column list, every check list (any state type), every table, every
+header / limit setting, every starting state and with or without a container fault at the end.
+-/
 namespace Cutplace.Props
-theorem C06_placeholder : True := trivial
+open Cutplace
+
+variable {σ : Type}
+
+/-- `'continue'` produces exactly the accepted rows of `'yield'`, ends the same way, leaves the
+same check states and counters and makes the same calls. -/
+theorem C06_continue (header : Nat) (limit : Option Nat) (cols : List Column) (checks : List (Check σ))
+    (fault : Bool) (n : Nat) (rows : List Row) (st : RState σ) :
+    let y := readLoop ⟨.yield, header, limit⟩ cols checks fault n rows st
+    let c := readLoop ⟨.continue, header, limit⟩ cols checks fault n rows st
+    c.events = y.events.filter Event.isRow ∧ c.final = y.final ∧ c.st.sts = y.st.sts ∧
+      c.st.accepted = y.st.accepted ∧ c.st.rejected = y.st.rejected ∧ c.log = y.log := by
+  induction rows generalizing n st with
+  | nil => simp [readLoop]
+  | cons row rest ih =>
+    simp only [readLoop]
+    by_cases hh : n + 1 > header
+    · simp only [hh, if_true]
+      by_cases hl : inLimit limit (n + 1) = true
+      · simp only [hl, if_true]
+        generalize hv : validateRow cols checks st.sts row n = vr
+        obtain ⟨sts', err, log⟩ := vr
+        simp only []
+        cases err with
+            | none =>
+              have := ih (n + 1) { st with sts := sts', accepted := st.accepted + 1 }
+              simp only [] at this ⊢
+              obtain ⟨h1, h2, h3, h4, h5, h6⟩ := this
+              simp [h1, h2, h3, h4, h5, h6, List.filter_cons]
+            | some e =>
+              have := ih (n + 1) { st with sts := sts', rejected := st.rejected + 1 }
+              simp only [] at this ⊢
+              obtain ⟨h1, h2, h3, h4, h5, h6⟩ := this
+              simp [h1, h2, h3, h4, h5, h6]
+      · simp only [hl, if_false, Bool.false_eq_true]
+        have := ih (n + 1) { st with accepted := st.accepted + 1 }
+        simp only [] at this ⊢
+        obtain ⟨h1, h2, h3, h4, h5, h6⟩ := this
+        simp [h1, h2, h3, h4, h5, h6, List.filter_cons]
+    · simp only [hh, if_false]
+      exact ih (n + 1) st
+
+/-- first error event of a list -/
+def firstErr : List Event → Option (Nat × RowErr)
+  | [] => none
+  | .row _ :: rest => firstErr rest
+  | .err l e :: _ => some (l, e)
+
+/-- `'raise'` produces the rows before the first rejection of `'yield'` and then raises that same
+error (same row, same kind, same culprit); without a rejection it ends exactly like `'yield'`. -/
+theorem C06_raise (header : Nat) (limit : Option Nat) (cols : List Column) (checks : List (Check σ))
+    (fault : Bool) (n : Nat) (rows : List Row) (st : RState σ) :
+    let y := readLoop ⟨.yield, header, limit⟩ cols checks fault n rows st
+    let r := readLoop ⟨.raise, header, limit⟩ cols checks fault n rows st
+    r.events = y.events.takeWhile Event.isRow ∧
+      r.final = (match firstErr y.events with
+                 | some (l, e) => Final.raised l e
+                 | none => y.final) := by
+  induction rows generalizing n st with
+  | nil => simp [readLoop, firstErr]
+  | cons row rest ih =>
+    simp only [readLoop]
+    by_cases hh : n + 1 > header
+    · simp only [hh, if_true]
+      by_cases hl : inLimit limit (n + 1) = true
+      · simp only [hl, if_true]
+        generalize hv : validateRow cols checks st.sts row n = vr
+        obtain ⟨sts', err, log⟩ := vr
+        simp only []
+        cases err with
+            | none =>
+              have := ih (n + 1) { st with sts := sts', accepted := st.accepted + 1 }
+              simp only [] at this ⊢
+              obtain ⟨h1, h2⟩ := this
+              simp [h1, h2, firstErr, List.takeWhile_cons]
+            | some e => simp [firstErr]
+      · simp only [hl, if_false, Bool.false_eq_true]
+        have := ih (n + 1) { st with accepted := st.accepted + 1 }
+        simp only [] at this ⊢
+        obtain ⟨h1, h2⟩ := this
+        simp [h1, h2, firstErr, List.takeWhile_cons]
+    · simp only [hh, if_false]
+      exact ih (n + 1) st
+
+/-- In `'yield'` mode there is exactly one event per data row, in input order: the row itself,
+unchanged, or one error located at that row's line (header rows are counted in the line). -/
+inductive EventsMatch (header : Nat) : Nat → List Row → List Event → Prop
+  | nil (n : Nat) : EventsMatch header n [] []
+  | skip (n : Nat) (r : Row) (rs : List Row) (evs : List Event) :
+      n + 1 ≤ header → EventsMatch header (n + 1) rs evs → EventsMatch header n (r :: rs) evs
+  | row (n : Nat) (r : Row) (rs : List Row) (evs : List Event) :
+      header < n + 1 → EventsMatch header (n + 1) rs evs → EventsMatch header n (r :: rs) (.row r :: evs)
+  | err (n : Nat) (r : Row) (rs : List Row) (evs : List Event) (e : RowErr) :
+      header < n + 1 → EventsMatch header (n + 1) rs evs → EventsMatch header n (r :: rs) (.err n e :: evs)
+
+theorem C06_yield_order (header : Nat) (limit : Option Nat) (cols : List Column) (checks : List (Check σ))
+    (fault : Bool) (n : Nat) (rows : List Row) (st : RState σ) :
+    EventsMatch header n rows (readLoop ⟨.yield, header, limit⟩ cols checks fault n rows st).events := by
+  induction rows generalizing n st with
+  | nil => simp [readLoop]; exact .nil n
+  | cons row rest ih =>
+    simp only [readLoop]
+    by_cases hh : n + 1 > header
+    · simp only [hh, if_true]
+      by_cases hl : inLimit limit (n + 1) = true
+      · simp only [hl, if_true]
+        generalize hv : validateRow cols checks st.sts row n = vr
+        obtain ⟨sts', err, log⟩ := vr
+        simp only []
+        cases err with
+            | none => exact .row n row rest _ hh (ih _ _)
+            | some e => exact .err n row rest _ e hh (ih _ _)
+      · simp only [hl, if_false, Bool.false_eq_true]
+        exact .row n row rest _ hh (ih _ _)
+    · simp only [hh, if_false]
+      exact .skip n row rest _ (by omega) (ih _ _)
+
+/-- After a complete pass in `'yield'` or `'continue'` mode the accepted and rejected counters add
+up to the number of data rows (rows after the header). -/
+theorem C06_counters (mode : Mode) (hm : mode ≠ .raise) (header : Nat) (limit : Option Nat)
+    (cols : List Column) (checks : List (Check σ)) (fault : Bool) (n : Nat) (rows : List Row) (st : RState σ) :
+    let r := readLoop ⟨mode, header, limit⟩ cols checks fault n rows st
+    r.st.accepted + r.st.rejected = st.accepted + st.rejected + ((n + rows.length) - max header n) := by
+  induction rows generalizing n st with
+  | nil => simp [readLoop]; omega
+  | cons row rest ih =>
+    simp only [readLoop]
+    by_cases hh : n + 1 > header
+    · simp only [hh, if_true]
+      by_cases hl : inLimit limit (n + 1) = true
+      · simp only [hl, if_true]
+        generalize hv : validateRow cols checks st.sts row n = vr
+        obtain ⟨sts', err, log⟩ := vr
+        simp only []
+        cases err with
+            | none =>
+              have := ih (n + 1) { st with sts := sts', accepted := st.accepted + 1 }
+              simp only [List.length_cons] at this ⊢
+              omega
+            | some e =>
+              cases mode with
+              | raise => exact absurd rfl hm
+              | yield =>
+                have := ih (n + 1) { st with sts := sts', rejected := st.rejected + 1 }
+                simp only [List.length_cons] at this ⊢
+                omega
+              | «continue» =>
+                have := ih (n + 1) { st with sts := sts', rejected := st.rejected + 1 }
+                simp only [List.length_cons] at this ⊢
+                omega
+      · simp only [hl, if_false, Bool.false_eq_true]
+        have := ih (n + 1) { st with accepted := st.accepted + 1 }
+        simp only [List.length_cons] at this ⊢
+        omega
+    · simp only [hh, if_false]
+      have := ih (n + 1) st
+      simp only [List.length_cons] at this ⊢
+      omega
+
+/-- `Reader.rows()` starts with zeroed counters, so a full pass over `rows` accounts for every data row -/
+theorem C06_counters_total (mode : Mode) (hm : mode ≠ .raise) (header : Nat) (limit : Option Nat)
+    (cols : List Column) (checks : List (Check σ)) (fault : Bool) (rows : List Row) (before : List σ) :
+    let r := readRows ⟨mode, header, limit⟩ cols checks fault rows before
+    r.st.accepted + r.st.rejected = rows.length - header := by
+  have := C06_counters mode hm header limit cols checks fault 0 rows ⟨checks.map (·.reset), 0, 0⟩
+  simp only [readRows] at this ⊢
+  simp at this ⊢
+  omega
+
+/-- A container fault after the listed rows ends the run with a data-format error in every mode
+that reaches it (`'raise'` may stop earlier at a rejected row). -/
+theorem C06_container_fault (mode : Mode) (header : Nat) (limit : Option Nat)
+    (cols : List Column) (checks : List (Check σ)) (n : Nat) (rows : List Row) (st : RState σ) :
+    let r := readLoop ⟨mode, header, limit⟩ cols checks true n rows st
+    r.final = .format (n + rows.length) ∨ (mode = .raise ∧ ∃ l e, r.final = .raised l e) := by
+  induction rows generalizing n st with
+  | nil => simp [readLoop]
+  | cons row rest ih =>
+    simp only [readLoop]
+    by_cases hh : n + 1 > header
+    · simp only [hh, if_true]
+      by_cases hl : inLimit limit (n + 1) = true
+      · simp only [hl, if_true]
+        generalize hv : validateRow cols checks st.sts row n = vr
+        obtain ⟨sts', err, log⟩ := vr
+        simp only []
+        cases err with
+            | none =>
+              have := ih (n + 1) { st with sts := sts', accepted := st.accepted + 1 }
+              simp only [List.length_cons] at this ⊢
+              rcases this with h | h
+              · left; rw [h]; congr 1; omega
+              · right; exact h
+            | some e =>
+              cases mode with
+              | raise => right; exact ⟨rfl, n, e, rfl⟩
+              | yield =>
+                have := ih (n + 1) { st with sts := sts', rejected := st.rejected + 1 }
+                simp only [List.length_cons] at this ⊢
+                rcases this with h | h
+                · left; rw [h]; congr 1; omega
+                · right; exact h
+              | «continue» =>
+                have := ih (n + 1) { st with sts := sts', rejected := st.rejected + 1 }
+                simp only [List.length_cons] at this ⊢
+                rcases this with h | h
+                · left; rw [h]; congr 1; omega
+                · right; exact h
+      · simp only [hl, if_false, Bool.false_eq_true]
+        have := ih (n + 1) { st with accepted := st.accepted + 1 }
+        simp only [List.length_cons] at this ⊢
+        rcases this with h | h
+        · left; rw [h]; congr 1; omega
+        · right; exact h
+    · simp only [hh, if_false]
+      have := ih (n + 1) st
+      simp only [List.length_cons] at this ⊢
+      rcases this with h | h
+      · left; rw [h]; congr 1; omega
+      · right; exact h
+
+/-- non-vacuity: a two-column table with a rejected middle row -/
+example :
+    let col : Column := ⟨fun v => .inr v, fun v => v != ['x']⟩
+    (readLoop (σ := Unit) ⟨.yield, 1, none⟩ [col] [] false 0 [[['h']], [['a']], [['x']], [['b']]] ⟨[], 0, 0⟩).events
+      = [.row [['a']], .err 2 (.field 0), .row [['b']]] := by
+  decide
+
 end Cutplace.Props
